@@ -31,3 +31,6 @@ func vfPrune()
 func vfOffsetIn(a, region []byte) int
 func vfSpawnAtomic(f func())
 func vfSpawnCut(f func(), cut int)
+func vfStallHook(region []byte, cut int, f func())
+func vfStallHookOff()
+func vfInfeasibleOK()
